@@ -68,13 +68,35 @@ def stripQuotes (v : String) : String :=
 /-- `_get_word_value` -/
 def wordValue (w : Word) : String := stripQuotes w.value
 
-/-- a word the assignment-skipping loops step over: `"=" in w and not w.startswith("-")` -/
-def isAssignLike (w : String) : Bool := Py.hasChar w '=' && !Py.startsWith w "-"
+/-- `[A-Za-z_]` -/
+def isNameStart (c : Char) : Bool := c.isAlpha || c == '_'
+/-- `[A-Za-z0-9_]` -/
+def isNameChar (c : Char) : Bool := c.isAlphanum || c == '_'
 
-/-- number of leading assignment-like words -/
+/-- after the name: optional `[…]`, optional `+`, then `=` -/
+def assignTail : List Char → Bool
+  | '[' :: t =>
+    match (t.dropWhile (· != ']')) with
+    | ']' :: r =>
+      (match r with
+       | '+' :: '=' :: _ => true
+       | '=' :: _ => true
+       | _ => false)
+    | _ => false
+  | '+' :: '=' :: _ => true
+  | '=' :: _ => true
+  | _ => false
+
+/-- `_ASSIGNMENT_RE.match(raw)`: `[A-Za-z_][A-Za-z0-9_]*(\[[^\]]*\])?\+?=` at the start of the raw word -/
+def isAssignWord (raw : String) : Bool :=
+  match raw.toList with
+  | c :: t => isNameStart c && assignTail (t.dropWhile isNameChar)
+  | [] => false
+
+/-- number of leading words bash takes as assignments (decided on the raw, unstripped text) -/
 def skipAssign : List String → Nat
   | [] => 0
-  | w :: ws => if isAssignLike w then skipAssign ws + 1 else 0
+  | w :: ws => if isAssignWord w then skipAssign ws + 1 else 0
 
 /-- `_is_version_or_help` -/
 def isVersionOrHelp (helpWords helpFlags2 helpFlagsLast : List String) (tokens : List String) : Bool :=
@@ -135,7 +157,8 @@ structure HelpTables where
   helpFlags2 : List String
   helpFlagsLast : List String
 
-/-- `_analyze_simple_command`; `n` bounds the wrapper-unwrapping recursion
+/-- `_analyze_simple_command` (the words start at the program name: the assignment prefix was
+    stripped by `_analyze_command`); `n` bounds the wrapper-unwrapping recursion
     (each step drops at least one token, so `words.length + 1` always suffices). -/
 def simpleCmd (w : World) (rec : Rec) (h : HelpTables) :
     Nat → List String → String → Bool → Decision
@@ -143,10 +166,7 @@ def simpleCmd (w : World) (rec : Rec) (h : HelpTables) :
   | n + 1, words, cwd, remote =>
     if words.isEmpty then ⟨.allow, "empty"⟩
     else
-      let i := skipAssign words
-      if i ≥ words.length then ⟨.allow, "env assignment"⟩
-      else
-        let tokens := words.drop i
+        let tokens := words
         let base := tokens.headD ""
         match w.matchCommand tokens cwd remote with
         | some m =>
@@ -240,7 +260,7 @@ structure CmdCtx where
 
 def mkCmdCtxS (hasHandler simpleSafe : String → Bool) (ws : List Word) : CmdCtx :=
   let words := ws.map wordValue
-  let baseIdx := skipAssign words
+  let baseIdx := skipAssign (ws.map Word.value)
   let base := words.getD baseIdx ""
   { words, baseIdx, base, hasHandler := hasHandler base, isSimpleSafe := simpleSafe base }
 
@@ -268,8 +288,10 @@ def aNode : Node → String → Bool → Decision
       if ds.isEmpty then ⟨.allow, "empty command"⟩ else combine ds
     else if ctx.base == "[" || ctx.base == "test" then
       combine (ds ++ [⟨.allow, "conditional test"⟩])
+    else if ctx.baseIdx ≥ ctx.words.length then
+      combine (ds ++ [⟨.allow, "env assignment"⟩])
     else
-      combine (ds ++ [simpleCmd w rec h (ctx.words.length + 1) ctx.words cwd remote])
+      combine (ds ++ [simpleCmd w rec h (ctx.words.length + 1) (ctx.words.drop ctx.baseIdx) cwd remote])
   | .pipeline cmds, cwd, remote =>
     let ds := aNodes cmds cwd remote
     let r := combine ds
